@@ -34,9 +34,32 @@ FAMILIES = [
     dict(name="resume-2cuts", params=dict(BASE, crash=2, sender_count=3, kinds=["w", "ping"]), mc_len=(4, 5), paths_quick=150, paths_thorough=1500),
     dict(name="resume-dbfilter", params=dict(BASE, fdbs=[1], sender_count=1, kinds=["w", "multi"]), mc_len=(4, 6), paths_quick=150, paths_thorough=1500),
     # keep-alive PINGs while a filtered database is selected: nothing of that region may move the checkpoint
-    dict(name="resume-dbfilter-ping", params=dict(BASE, fdbs=[1], sender_count=2, kinds=["w", "ping"]), mc_len=(4, 6), paths_quick=150, paths_thorough=1500),
+    dict(name="resume-dbfilter-ping", params=dict(BASE, fdbs=[1], sender_count=2, kinds=["w", "ping"]), mc_len=(4, 6), paths_quick=150, paths_thorough=1500,
+         prefer=lambda st: _ping_in_filtered_then_cut_then_write(st),
+         # a PING (and nothing else) while the filtered database is selected, a cut, then writes to the filtered database
+         fixed=[[("sel", 0), ("w", -1), ("sel", 1), ("ping", -1), ("cut", 0), ("w", -1), ("sel", 0), ("w", -1)],
+                [("sel", 0), ("w", -1), ("w", -1), ("sel", 1), ("w", -1), ("ping", -1), ("cut", 0), ("w", -1), ("ping", -1), ("w", -1), ("sel", 0), ("w", -1)],
+                [("sel", 1), ("ping", -1), ("sel", 0), ("w", -1), ("sel", 1), ("ping", -1), ("cut", 0), ("w", -1), ("cut", 0), ("w", -1), ("sel", 0), ("w", -1)]]),
     dict(name="resume-targetdb", params=dict(BASE, tdb=1, kinds=["w", "wf", "ping"], kf=True), mc_len=(4, 5), paths_quick=150, paths_thorough=1500),
 ]
+
+
+def _ping_in_filtered_then_cut_then_write(steps):
+    """the source emits a PING while database 1 (filtered) is selected, the run is cut later, and a write is emitted after the cut"""
+    db, stage = None, 0
+    for s in steps:
+        a = s.get("a")
+        if a == "SrcEmit":
+            it = s["item"]
+            if it["t"] == "sel":
+                db = it["d"]
+            elif it["t"] == "ping" and db == 1 and stage == 0:
+                stage = 1
+            elif it["t"] == "w" and stage == 2:
+                return True
+        elif a == "Crash" and stage == 1:
+            stage = 2
+    return False
 
 
 def end_to_end(sc, verdict, thorough, seed):
